@@ -21,8 +21,13 @@ import (
 	"bytes"
 	"context"
 	"encoding/json"
+	"errors"
 	"fmt"
 	"io"
+	"os"
+	"regexp"
+	"runtime"
+	"strconv"
 	"strings"
 	"sync"
 	"testing"
@@ -115,21 +120,67 @@ func c19sStartServer(httpVersion conformancev1.HTTPVersion, limit uint32) (*c19s
 type c19sClient struct {
 	in     *io.PipeWriter
 	out    *io.PipeReader
+	cancel context.CancelFunc
 	done   chan error
 	stderr *c19sBuf
 	seq    int
 }
 
-func c19sStartClient() *c19sClient {
+func c19sStartClient(seq int) *c19sClient {
 	inR, inW := io.Pipe()
 	outR, outW := io.Pipe()
-	cli := &c19sClient{in: inW, out: outR, done: make(chan error, 1), stderr: &c19sBuf{}}
+	ctx, cancel := context.WithCancel(context.Background())
+	cli := &c19sClient{in: inW, out: outR, cancel: cancel, done: make(chan error, 1), stderr: &c19sBuf{}, seq: seq}
 	go func() {
-		err := RunInReferenceMode(context.Background(), []string{"referenceclient"}, inR, outW, cli.stderr, nil)
+		err := RunInReferenceMode(ctx, []string{"referenceclient"}, inR, outW, cli.stderr, nil)
 		_ = outW.CloseWithError(fmt.Errorf("client exited: %v", err)) //nolint:errorlint
 		cli.done <- err
 	}()
 	return cli
+}
+
+// c19sDeadlock is returned by call when the RPC can never complete: the
+// client's RPC goroutine waits for the server to end the response while the
+// server's handler waits for the next request message of the same stream.
+type c19sDeadlock struct{ what string }
+
+func (d *c19sDeadlock) Error() string { return d.what }
+
+// c19sDeadlockSignature inspects all goroutines of the process (one RPC is in
+// flight at a time) for a wait-for cycle between the two peers. This is a
+// structural test, not a timing one: the client goroutine sits inside
+// Receive (draining the response body, so it cannot send or close its request
+// side) and the server handler sits inside Receive of the same RPC method (so
+// it will not end the response). Neither can make progress.
+var (
+	c19sClientFrame = regexp.MustCompile(`referenceclient\.\(\*invoker\)\.(\w+)\(`)          //nolint:gochecknoglobals
+	c19sServerFrame = regexp.MustCompile(`referenceserver\.\(\*conformanceServer\)\.(\w+)\(`) //nolint:gochecknoglobals
+)
+
+func c19sDeadlockSignature() string {
+	buf := make([]byte, 16<<20)
+	buf = buf[:runtime.Stack(buf, true)]
+	var clientSide, serverSide string
+	for _, block := range strings.Split(string(buf), "\n\n") {
+		if m := c19sClientFrame.FindStringSubmatch(block); m != nil &&
+			strings.Contains(block, "connect.discard(") && strings.Contains(block, ").Receive(") {
+			clientSide = "client RPC goroutine: connect.discard <- Receive <- referenceclient.(*invoker)." + m[1]
+		}
+		if m := c19sServerFrame.FindStringSubmatch(block); m != nil &&
+			strings.Contains(block, "envelopeReader).Read(") && strings.Contains(block, ").Receive(") {
+			serverSide = "server handler goroutine: envelopeReader.Read <- Receive <- referenceserver.(*conformanceServer)." + m[1]
+		}
+	}
+	if clientSide != "" && serverSide != "" {
+		return clientSide + "; " + serverSide
+	}
+	return ""
+}
+
+func c19sServerHandlerBusy() bool {
+	buf := make([]byte, 16<<20)
+	buf = buf[:runtime.Stack(buf, true)]
+	return strings.Contains(string(buf), "referenceserver.(*conformanceServer).")
 }
 
 // call performs one RPC through the real client: request in, response out.
@@ -143,15 +194,74 @@ func (c *c19sClient) call(req *conformancev1.ClientCompatRequest) (*conformancev
 	if err := internal.WriteDelimitedMessage(c.in, req); err != nil {
 		return nil, fmt.Errorf("writing request to client: %w", err)
 	}
-	resp := &conformancev1.ClientCompatResponse{}
-	// the timeout only guards the harness against a hang; it decides nothing
-	if err := internal.ReadDelimitedMessage(c.out, resp, "reference client", 120*time.Second, 256<<20); err != nil {
-		return nil, err
+	type result struct {
+		resp *conformancev1.ClientCompatResponse
+		err  error
 	}
-	if resp.TestName != req.TestName {
-		return nil, fmt.Errorf("client answered %q, expected %q", resp.TestName, req.TestName)
+	ch := make(chan result, 1)
+	go func() {
+		resp := &conformancev1.ClientCompatResponse{}
+		// the timeout only guards the harness against a hang; it decides nothing
+		err := internal.ReadDelimitedMessage(c.out, resp, "reference client", c19sCallTimeout(), 256<<20)
+		ch <- result{resp, err}
+	}()
+	started := time.Now()
+	ticker := time.NewTicker(250 * time.Millisecond)
+	defer ticker.Stop()
+	for {
+		select {
+		case res := <-ch:
+			if res.err != nil {
+				if os.Getenv("C19_DEBUG_DUMP") != "" {
+					buf := make([]byte, 1<<22)
+					buf = buf[:runtime.Stack(buf, true)]
+					fmt.Printf("==== goroutines at timeout ====\n%s\n", buf)
+				}
+				return nil, res.err
+			}
+			if res.resp.TestName != req.TestName {
+				return nil, fmt.Errorf("client answered %q, expected %q", res.resp.TestName, req.TestName)
+			}
+			return res.resp, nil
+		case <-ticker.C:
+			if time.Since(started) < time.Second {
+				continue
+			}
+			if sig := c19sDeadlockSignature(); sig != "" {
+				// give up on this client instance: abort its RPCs and drain it
+				c.cancel()
+				_ = c.in.Close()
+				<-ch
+				go func() { _, _ = io.Copy(io.Discard, c.out) }()
+				select {
+				case <-c.done:
+				case <-time.After(30 * time.Second):
+					if os.Getenv("C19_DEBUG_DUMP") != "" {
+						buf := make([]byte, 1<<22)
+						buf = buf[:runtime.Stack(buf, true)]
+						fmt.Printf("==== goroutines after cancellation ====\n%s\n", buf)
+					}
+					return nil, fmt.Errorf("client did not stop after cancellation (deadlock: %s)", sig)
+				}
+				for i := 0; c19sServerHandlerBusy(); i++ {
+					if i > 300 {
+						return nil, fmt.Errorf("server handler still running after the client went away (deadlock: %s)", sig)
+					}
+					time.Sleep(100 * time.Millisecond)
+				}
+				return nil, &c19sDeadlock{what: sig}
+			}
+		}
 	}
-	return resp, nil
+}
+
+func c19sCallTimeout() time.Duration {
+	if v := os.Getenv("C19_CALL_TIMEOUT_S"); v != "" {
+		if n, err := strconv.Atoi(v); err == nil {
+			return time.Duration(n) * time.Second
+		}
+	}
+	return 120 * time.Second
 }
 
 type c19sEnv struct {
@@ -185,6 +295,7 @@ func (e *c19sEnv) shutdown() {
 	}
 	if e.client != nil {
 		_ = e.client.in.Close()
+		go func() { _, _ = io.Copy(io.Discard, e.client.out) }()
 		select {
 		case <-e.client.done:
 		case <-time.After(10 * time.Second):
@@ -417,9 +528,14 @@ func c19sHasEncoding(hdrs []*conformancev1.Header, compression string) bool {
 	return false
 }
 
-func c19sObserve(cli *c19sClient, tc c19sCase, req *conformancev1.ClientCompatRequest) (c19sObservation, error) {
-	resp, err := cli.call(req)
+func c19sObserve(env *c19sEnv, tc c19sCase, req *conformancev1.ClientCompatRequest) (c19sObservation, error) {
+	resp, err := env.client.call(req)
 	if err != nil {
+		var deadlock *c19sDeadlock
+		if errors.As(err, &deadlock) {
+			env.client = c19sStartClient(env.client.seq)
+			return c19sObservation{Class: "deadlock", Message: deadlock.what}, nil
+		}
 		return c19sObservation{}, err
 	}
 	if clientErr := resp.GetError(); clientErr != nil {
@@ -510,7 +626,7 @@ func c19sServerSide(env *c19sEnv, tc c19sCase) (c19sVerdict, error) {
 		}
 	}
 
-	obs, err := c19sObserve(env.client, tc, c19sCompatRequest(tc, srv, msgs, 0))
+	obs, err := c19sObserve(env, tc, c19sCompatRequest(tc, srv, msgs, 0))
 	if err != nil {
 		return c19sVerdict{}, err
 	}
@@ -523,6 +639,10 @@ func c19sServerSide(env *c19sEnv, tc c19sCase) (c19sVerdict, error) {
 	switch {
 	case obs.Class == "client-error":
 		return verdict, fmt.Errorf("reference client reported an internal error: %s (%s)", obs.Message, tc)
+	case obs.Class == "deadlock":
+		verdict.Key = "peers-deadlock:server-limit:" + tc.Protocol + ":" + tc.Shape
+		verdict.Detail = describe("the RPC never completes; client and server wait for each other")
+		verdict.Outcome = "DEADLOCK"
 	case obs.Class == "accepted" && wantAccept:
 		// the whole request must have arrived: the server echoes what it received
 		var echoed []*anypb.Any
@@ -618,7 +738,7 @@ func c19sClientSide(env *c19sEnv, tc c19sCase) (c19sVerdict, error) {
 		}
 	}
 	// 1. no limit: measure
-	ref, err := c19sObserve(env.client, tc, c19sCompatRequest(tc, srv, msgs, 0))
+	ref, err := c19sObserve(env, tc, c19sCompatRequest(tc, srv, msgs, 0))
 	if err != nil {
 		return c19sVerdict{}, err
 	}
@@ -643,7 +763,7 @@ func c19sClientSide(env *c19sEnv, tc c19sCase) (c19sVerdict, error) {
 		}
 	}
 	// 2. with the limit
-	obs, err := c19sObserve(env.client, tc, c19sCompatRequest(tc, srv, msgs, uint32(limit)))
+	obs, err := c19sObserve(env, tc, c19sCompatRequest(tc, srv, msgs, uint32(limit)))
 	if err != nil {
 		return c19sVerdict{}, err
 	}
@@ -655,6 +775,10 @@ func c19sClientSide(env *c19sEnv, tc c19sCase) (c19sVerdict, error) {
 	switch {
 	case obs.Class == "client-error":
 		return verdict, fmt.Errorf("reference client reported an internal error: %s (%s)", obs.Message, tc)
+	case obs.Class == "deadlock":
+		verdict.Key = "peers-deadlock:client-limit:" + tc.Protocol + ":" + tc.Shape
+		verdict.Detail = describe("the client never reports a result: it waits for the server to end the response while the server waits for the next request")
+		verdict.Outcome = "DEADLOCK"
 	case obs.Class == "accepted" && !wantReject:
 		if len(obs.Payloads) != len(sizes) {
 			verdict.Key = "accepted-but-incomplete:client"
@@ -784,7 +908,7 @@ func TestVerifC19Sharp(t *testing.T) {
 		"to the real server with that limit; side=client: the limit of the real client is (encoded size of the largest response) - k; every tuple is distinct; " +
 		"non-trivial = every case (each one sits on the boundary: |k| <= 1)"
 
-	env := &c19sEnv{servers: map[string]*c19sServer{}, client: c19sStartClient()}
+	env := &c19sEnv{servers: map[string]*c19sServer{}, client: c19sStartClient(0)}
 	defer env.shutdown()
 
 	// judge runs a case; a would-be violation must reproduce twice more.
